@@ -32,6 +32,8 @@ func runC13(c *an.Ctx) {
 	r13i(c)
 	c.As(map[string]string{"R05j": "R13h"}, func() { r05j(c) })
 	c.As(map[string]string{"R15j": "R13j"}, func() { r15j(c) })
+	// round 8
+	fieldWriters(c, "R13k", "Task.localBindMap is assigned only where the task is made", "core/task", "Task", "localBindMap", map[string]bool{"(*core/task.Manager).newTaskForMesosOffer": true}, "the endpoints bound by a running task stay what they are for its whole life; a task reused by another environment whose bind map was cleared is configured without its inbound channels, and outbound channels that target it match nothing", 1)
 }
 
 func r13a(c *an.Ctx) {
